@@ -32,8 +32,11 @@ Envelope(e) ==
   IF e.refused > 0 /\ al # {} THEN "ClientsRefusedDuringUpgrade"
   ELSE IF e.nmasters > 2 THEN "SecondUpgradeStartedWhilePending"
   ELSE IF T.unix /\ al # {} /\ ~e.sock THEN "SocketFileRemovedWhileInUse"
-  ELSE IF Cardinality(al) = 2 /\ (e.base \notin al \/ e.two \notin al \/ e.base = e.two) THEN "PidFilesWrongDuringUpgrade"
-  ELSE IF Cardinality(al) = 1 /\ (e.base \notin al \/ e.two # "none") THEN "PidFileNotUnderConfiguredName"
+  \* (T.nopid: no pid file is configured at all)
+  ELSE IF ~T.nopid /\ Cardinality(al) = 2 /\ (e.base \notin al \/ e.two \notin al \/ e.base = e.two) THEN "PidFilesWrongDuringUpgrade"
+  ELSE IF ~T.nopid /\ Cardinality(al) = 1 /\ (e.base \notin al \/ e.two # "none") THEN "PidFileNotUnderConfiguredName"
+  \* when the last master has gone (by the operator's stop signal) the socket file it created is gone too
+  ELSE IF T.unix /\ al = {} /\ e.sock /\ lastExit # "none" /\ cause[lastExit] = "op" THEN "SocketFileLeftBehind"
   \* judged on the operator's ops alone (cause / wantServe are history of the ops, not inferred state)
   ELSE IF \E m \in M : st[m] # "none" /\ m \notin al /\ cause[m] = "none" THEN "MasterDiedUnasked"
   ELSE IF (\E m \in al : wantServe[m]) /\ ~(\E m \in al : wantServe[m] /\ m \in ToSet(e.serving)) THEN "NotServingAfterRestore"
@@ -41,7 +44,7 @@ Envelope(e) ==
 
 Matches(e) ==
   /\ ToSet(e.alive) = {m \in M : Alive(m)}
-  /\ e.base = pidfile.base /\ e.two = pidfile.two
+  /\ (~T.nopid => (e.base = pidfile.base /\ e.two = pidfile.two))
   /\ (T.unix => e.sock = sockfile)
   /\ ToSet(e.serving) \subseteq {m \in M : workers[m] > 0}
 
